@@ -215,6 +215,7 @@ package store
 //@   local ids []string#1
 //@   local ne []data.NodeEdge#2
 //@   local ret []data.NodeEdge#3
+//@   fresh res0
 //@   requires sdb != nil && sdb.db != nil && acyclic(sdb)
 //@   modifies state(sdb.db)
 //@   assert [C09] matched-placements: forall k int :: 0 <= k && k < len(ne) ==> credsMatch(ne[k], email, password) at "append(users, ne...)"
@@ -235,3 +236,22 @@ package store
 //@     invariant forall j int :: 0 <= j && j < len(ret) ==> credsMatch(ret[j], email, password) && rootPath(sdb, ret[j].ID)
 //@     modifies ret, state(sdb.db)
 //@     decreases len(users) - rangeindex
+
+// Token issue (auth.user request). issuedN / issuedFor: the ghost log of Authorizer.NewToken calls.
+//@ model func issuedN(a api.Authorizer) int
+//@ model func issuedFor(a api.Authorizer, i int) string
+//@ extern api.(Authorizer).NewToken(self, id)
+//@   modifies self
+//@   ensures issuedN(self) == old(issuedN(self)) + 1 && issuedFor(self, old(issuedN(self))) == id && (forall i int :: i < old(issuedN(self)) ==> issuedFor(self, i) == old(issuedFor(self, i)))
+//@ func (*Store).handleAuthUser
+//@   props C09
+//@   local st *store.Store#1
+//@   local msg *nats.Msg#1
+//@   local emailP data.Point#1
+//@   local passP data.Point#2
+//@   local nodes data.Nodes#1
+//@   local user data.User#1
+//@   requires st != nil && st.db != nil && st.db.db != nil && msg != nil && acyclic(st.db)
+//@   modifies state(st.db.db), st.authorizer
+//@   assert [C09] token-only-for-a-matching-live-user: len(nodes) > 0 && credsMatch(nodes[0], emailP.Text, passP.Text) && rootPath(st.db, nodes[0].ID) && user.ID == nodes[0].ID at "st.authorizer.NewToken(user.ID)"
+//@   ensures [C09] at-most-one-token: issuedN(st.authorizer) <= old(issuedN(st.authorizer)) + 1 && (forall i int :: i < old(issuedN(st.authorizer)) ==> issuedFor(st.authorizer, i) == old(issuedFor(st.authorizer, i)))
